@@ -316,8 +316,8 @@ def r14_3(ctx, repo):
             ok = False
     # default duration for missing values
     dd = defs(U(dur)) if isinstance(dur, ast.Name) else []
-    has_default = any(isinstance(x.value, ast.Constant)
-                      and x.value.value == 0.01 for x in dd)
+    has_default = any(isinstance(c_, ast.Constant) and c_.value == 0.01
+                      for x in dd for c_ in ast.walk(x.value))
     if isinstance(dur, ast.Name) and not has_default:
         ctx.violation(rule, where, construct, 'default duration',
                       'no bolus default (0.01) is assigned for rows with a '
